@@ -36,11 +36,16 @@ const (
 	lpEncoding32BitStr     = 0xF0 // 11110000 LP_ENCODING_32BIT_STR
 )
 
+const (
+	lpNumElementsUnknown = 0xFFFF // LP_HDR_NUMELE_UNKNOWN
+	lpEOF                = 0xFF   // LP_EOF
+)
+
 type Listpack struct {
 	data        []byte //
 	p           uint32 //
 	numBytes    uint32 // 4 byte, the number of bytes
-	numElements uint16 // 2 byte, the number of Elements
+	numElements int    // the number of elements (the 2 byte header field, or the walked length when that saturates)
 }
 
 func NewListpack(data []byte) *Listpack {
@@ -48,8 +53,19 @@ func NewListpack(data []byte) *Listpack {
 
 	lp.data = data
 	lp.numBytes = binary.LittleEndian.Uint32(data[:4])
-	lp.numElements = binary.LittleEndian.Uint16(data[4:6])
+	lp.numElements = int(binary.LittleEndian.Uint16(data[4:6]))
 	lp.p = 4 + 2
+	if lp.numElements == lpNumElementsUnknown {
+		// the 16 bit header field saturates: 65535 means "65535 or more, walk
+		// the entries up to the end marker" (listpack.c:lpLength)
+		n := 0
+		for lp.data[lp.p] != lpEOF {
+			lp.Next()
+			n++
+		}
+		lp.numElements = n
+		lp.p = 4 + 2
+	}
 
 	return lp
 }
@@ -147,7 +163,7 @@ func (lp *Listpack) NextInteger() int64 {
 	return ret
 }
 
-func (lp *Listpack) NumElements() uint16 {
+func (lp *Listpack) NumElements() int {
 	return lp.numElements
 }
 
